@@ -1,6 +1,7 @@
 package props
 
 import (
+	"errors"
 	"encoding/json"
 	"fmt"
 	"math"
@@ -695,6 +696,46 @@ func c15Narrow(env *core.Env) {
 		fhirconvAll(env, &dtpb.Integer{Value: int32(v)}, big.NewInt(int64(int32(v))))
 		fhirconvAll(env, &dtpb.UnsignedInt{Value: uint32(v)}, new(big.Int).SetUint64(uint64(uint32(v))))
 		fhirconvAll(env, &dtpb.PositiveInt{Value: uint32(v)}, new(big.Int).SetUint64(uint64(uint32(v))))
+		// the element constructors of internal/fhir that narrow: succeed exactly when the value fits an int32
+		c15FhirIntegerFrom(env, v)
+	}
+}
+
+func c15FhirIntegerFrom(env *core.Env, v int64) {
+	type res struct {
+		name string
+		got  *dtpb.Integer
+		err  error
+		fits bool
+		want int64
+	}
+	var rs []res
+	out := env.Guard(fmt.Sprintf("fhir.IntegerFrom* %d", v), func() {
+		g, e := fhir.IntegerFromInt(int(v))
+		rs = append(rs, res{"IntegerFromInt", g, e, v >= math.MinInt32 && v <= math.MaxInt32, v})
+		u := uint32(v)
+		g, e = fhir.IntegerFromUnsignedInt(&dtpb.UnsignedInt{Value: u})
+		rs = append(rs, res{"IntegerFromUnsignedInt", g, e, u <= math.MaxInt32, int64(u)})
+		if u > 0 {
+			g, e = fhir.IntegerFromPositiveInt(&dtpb.PositiveInt{Value: u})
+			rs = append(rs, res{"IntegerFromPositiveInt", g, e, u <= math.MaxInt32, int64(u)})
+		}
+	})
+	env.Eval(3)
+	env.Cover("fhir-integer-constructors")
+	if out.Panicked || out.Dead {
+		env.Violatef("C15/panic@"+out.Site+"/fhir.IntegerFrom", "fhir.IntegerFrom*(%d) panicked: %s", v, out.PanicMsg)
+		return
+	}
+	for _, r := range rs {
+		switch {
+		case r.fits && (r.err != nil || r.got == nil || int64(r.got.GetValue()) != r.want):
+			env.Violatef("C15/fhir-int/"+r.name+"/wrong-value", "fhir.%s(%d): the value fits an integer, got %v, %v", r.name, r.want, r.got, r.err)
+		case !r.fits && r.err == nil:
+			env.Violatef("C15/fhir-int/"+r.name+"/wrong-verdict", "fhir.%s(%d): the value does not fit an integer, yet the result is %v without an error", r.name, r.want, r.got)
+		case !r.fits && !errors.Is(r.err, fhir.ErrIntegerDataLoss):
+			env.Violatef("C15/fhir-int/"+r.name+"/wrong-error", "fhir.%s(%d): error %v is not ErrIntegerDataLoss", r.name, r.want, r.err)
+		}
 	}
 }
 
